@@ -633,7 +633,14 @@ func addPropsFamily(c *enumCtx) {
 	settings := []string{"", "false", "true", `"any"`, `"string"`, `"integer"`, `"float"`, `"boolean"`, `"null"`, `"object"`, `"array"`, `"@T"`, `"@O"`}
 	types := []sc.TypeDecl{{Name: "@T", Body: gen.Int("1").With(gen.R("min", "0"))}, {Name: "@O", Body: gen.Obj(gen.P("k", gen.Int("1")))}}
 	extra := []*gen.JV{gen.JInt("1"), gen.JInt("-1"), gen.JFloat("1.5"), gen.JStr(`"s"`), gen.JBool("false"), gen.JNull(), gen.JObj(), gen.JArr(), gen.JObj(gen.Member{Key: "k", Val: gen.JInt("1")}), gen.JArr(gen.JInt("1")), gen.JObj(gen.Member{Key: "q", Val: gen.JInt("1")})}
+	// the kind of an undeclared value is guessed from its raw text: strings whose text
+	// looks like another kind or ends in an escaped backslash / quote, the empty string
+	spelled := []*gen.JV{gen.JStr(`""`), gen.JStr(`"1"`), gen.JStr(`"1.5"`), gen.JStr(`"true"`), gen.JStr(`"null"`), gen.JStr(`"\\"`), gen.JStr(`"C:\\a.b\\"`), gen.JStr(`"a\""`), gen.JStr(`"{}"`), gen.JStr(`"[1]"`), gen.JStr(`" "`)}
 	var docs []*gen.JV
+	for _, e := range spelled {
+		docs = append(docs, gen.JObj(gen.Member{Key: "a", Val: gen.JInt("1")}, gen.Member{Key: "z", Val: e}))
+		docs = append(docs, gen.JObj(gen.Member{Key: "z", Val: e}))
+	}
 	for _, base := range [][]gen.Member{{{Key: "a", Val: gen.JInt("1")}}, {}, {{Key: "a", Val: gen.JStr(`"s"`)}}} {
 		docs = append(docs, gen.JObj(base...))
 		for _, e := range extra {
